@@ -220,6 +220,17 @@ func (g *Gen) pick(l []string) string { return l[g.r.Intn(len(l))] }
 
 func upper(s string) string { return strings.ToUpper(s) }
 
+// the neighbourhood of a valid address string: what a lenient or normalising validation would let through
+// (surrounding white space, a trailing NUL, a 0x or bech32-looking decoration, the string twice, mixed case,
+// the last character dropped or changed)
+func nearAddrs(a string) []string {
+	out := []string{" " + a, a + " ", "\t" + a, a + "\n", " " + a + " ", a + "\x00", "0x" + a, a + a, a + "," + a, "\u00a0" + a, a + "\u3000"}
+	if len(a) > 8 {
+		out = append(out, a[:len(a)-1], a[:len(a)-1]+"q", a[:len(a)-1]+"p", strings.ToUpper(a[:8])+a[8:], a[:7]+strings.ToUpper(a[7:]))
+	}
+	return out
+}
+
 // tx helpers ------------------------------------------------------------
 func (g *Gen) tx(ty string, from string, rest string, plan string) string {
 	body := fmt.Sprintf("%s from=%x", ty, from)
